@@ -23,3 +23,12 @@ class EvalStack:
 
     def replace_top(self, value):
         self._stack[-1] = value
+
+    @property
+    def depth(self):
+        return len(self._stack)
+
+    def truncate(self, depth):
+        # Discard everything above the given depth.
+        while len(self._stack) > depth:
+            self._stack.pop()
